@@ -465,6 +465,10 @@ func (rl *respDeserializer) getNextMap(pairs int) (value respMap, valid bool) {
 			return
 		}
 		k = respNormalizeKey(k)
+		if !k.isHashable() {
+			valid = false
+			return
+		}
 		if v, valid = rl.getNextValue(); !valid {
 			return
 		}
@@ -484,6 +488,10 @@ func (rl *respDeserializer) getNextAttributeMap(pairs int) (value respAttributeM
 			return
 		}
 		k = respNormalizeKey(k)
+		if !k.isHashable() {
+			valid = false
+			return
+		}
 		if v, valid = rl.getNextValue(); !valid {
 			return
 		}
@@ -503,6 +511,10 @@ func (rl *respDeserializer) getNextSet(count int) (value respSet, valid bool) {
 			return
 		}
 		v = respNormalizeKey(v)
+		if !v.isHashable() {
+			valid = false
+			return
+		}
 		s[v] = struct{}{}
 	}
 
@@ -596,6 +608,10 @@ func (rl *respDeserializer) getNextDynamicMap() (value respMap, valid bool) {
 			return m, true
 		}
 		k = respNormalizeKey(k)
+		if !k.isHashable() {
+			valid = false
+			return
+		}
 		if v, valid = rl.getNextValue(); !valid {
 			return
 		}
@@ -617,6 +633,10 @@ func (rl *respDeserializer) getNextDynamicAttributeMap() (value respAttributeMap
 		}
 
 		k = respNormalizeKey(k)
+		if !k.isHashable() {
+			valid = false
+			return
+		}
 		if v, valid = rl.getNextValue(); !valid {
 			return
 		}
@@ -637,6 +657,19 @@ func (rl *respDeserializer) getNextDynamicSet() (value respSet, valid bool) {
 			return s, true
 		}
 		v = respNormalizeKey(v)
+		if !v.isHashable() {
+			valid = false
+			return
+		}
 		s[v] = struct{}{}
 	}
+}
+
+// Aggregate values can't be used as the key of a map or the member of a set.
+func (rv *respValue) isHashable() bool {
+	switch rv.data.(type) {
+	case respArray, respMap, respSet, respAttributeMap, respPush, respPairs:
+		return false
+	}
+	return true
 }
